@@ -170,7 +170,7 @@ fn raw_comp() -> impl Strategy<Value = RawComp> {
             0u8..32,
         ),
         (
-            proptest::option::weighted(0.12, (0u8..4, 0u8..4)),
+            proptest::option::weighted(0.22, (0u8..4, 0u8..3)),
             proptest::option::weighted(0.15, 0u8..NAME_WORDS.len() as u8),
             proptest::option::weighted(0.6, raw_qty()),
             proptest::option::weighted(0.2, proptest::collection::vec(0u8..TEXT_WORDS.len() as u8, 0..=3)),
@@ -338,6 +338,9 @@ struct DefInfo {
 
 struct Builder {
     ext: bool,
+    /// timers without a duration (`~rest`) are well formed only without TIMER_REQUIRES_TIME:
+    /// generated for the canonical-parser part of C01 only
+    bare_timers: bool,
     /// generate nothing that would produce a warning (C07 soundness); C01 only needs "no error"
     igr_defs: Vec<DefInfo>,
     cw_defs: Vec<DefInfo>,
@@ -567,22 +570,29 @@ impl Builder {
             _ => ValM::Num(num_of(&r.num)),
         };
         let unit = TIME_UNITS[r.unit as usize % TIME_UNITS.len()].to_string();
-        let qty = Some(QtyM { lock: false, value, unit: Some(unit), blank_sep: false });
-        // a timer without duration is only well formed when it has a name, and (C02) is excluded
-        // from the "core" family as well, so it is never generated here
-        let _ = r.no_qty;
-        let single = name.as_ref().is_some_and(|n| is_plain_word(n));
-        let _ = single;
-        TimerM { name, qty, braces: true }
+        let mut qty = Some(QtyM { lock: false, value, unit: Some(unit), blank_sep: false });
+        let mut braces = true;
+        // a timer without duration is well formed only when it has a name and the parser does not
+        // require a time (C02 excludes it from the "core" family)
+        if self.bare_timers && r.no_qty && name.is_some() {
+            qty = None;
+            braces = !(name.as_ref().is_some_and(|n| is_plain_word(n)) && r.unit % 2 == 0);
+        }
+        TimerM { name, qty, braces }
     }
 }
 
 /// Turns a raw recipe into a well-formed model. `strict`: also avoid every construct that is
 /// documented to produce a warning (used for the soundness half of C07).
 pub fn build(raw: &RawRecipe, strict: bool) -> RecipeM {
+    build_with(raw, strict, false)
+}
+
+pub fn build_with(raw: &RawRecipe, strict: bool, bare_timers: bool) -> RecipeM {
     let ext = raw.ext;
     let mut b = Builder {
         ext,
+        bare_timers: bare_timers && !ext,
         igr_defs: vec![],
         cw_defs: vec![],
         mode: ModeM::All,
@@ -745,6 +755,7 @@ pub fn build(raw: &RawRecipe, strict: bool) -> RecipeM {
                             // a word / number glued after a brace-less component would extend its name
                             (TokM::Comp(c), TokM::Word(_) | TokM::Num(_) | TokM::Inline { .. }) if !c.braces => space_before = true,
                             (TokM::Comp(c), TokM::Escaped(_)) if !c.braces => space_before = true,
+                            (TokM::Timer(t), TokM::Word(_) | TokM::Num(_) | TokM::Inline { .. } | TokM::Escaped(_)) if !t.braces => space_before = true,
                             // `|` after a brace-less component is harmless, `{` never appears raw
                             // two dashes in a row would open a comment; `[` + `-` too
                             (TokM::Punct(a), TokM::Punct(b2)) if a == "-" && b2 == "-" => space_before = true,
